@@ -106,7 +106,8 @@ def generate(run_seed, tier):
         it["precompute"] = r.choice(["none", "none", "before", "after",
                                      "lazy"])
         items.append(it)
-    return dict(curve=mc.name, d=d, items=items)
+    return dict(curve=mc.name, d=d, items=items,
+                legacy_generator=toy and r.random() < 0.15)
 
 
 class _OS(object):
@@ -125,7 +126,8 @@ def execute(prog):
     out = core.new_outcome()
     mc = mcurves.by_name(prog["curve"])
     n = mc.n
-    curve, toy = libx.run_curve(mc)
+    curve, toy = libx.run_curve(
+        mc, legacy_generator=bool(prog.get("legacy_generator")))
     d = prog["d"]
     enc_map = {
         "string": (lu.sigencode_string, lu.sigdecode_string),
@@ -238,6 +240,11 @@ def execute(prog):
                     core.bump(out["probes"], "digest_longer_than_order")
                 # ---- restart(s) of the verifier between sign and verify
                 vk = sk.verifying_key
+                if prog.get("legacy_generator"):
+                    # precompute() is not part of the property and needs a
+                    # point with a declared order, which keys derived from an
+                    # affine base point do not carry
+                    it = dict(it, precompute="none")
                 if it["precompute"] == "before":
                     vk.precompute()
                 for kind, fmt in it["reload"]:
